@@ -5,12 +5,13 @@ import ast
 import itertools
 import re
 
-from sa import source
-from sa.cfg import cfg_of, guards
-from sa.minieval import CannotEval, ev
+from sa import pat, source
+from sa.cfg import cfg_of, negate
+from sa.classes import is_logging_stmt
+from sa.minieval import CannotEval, Record, ev
 from sa.source import AnchorMissing, arg_of, bind_args, dotted, is_self_attr, last_attr, local_defs, params_of, short, u, walk_body
-from sa.sym import UnknownAtom, atoms_of
-from sa.tables import Unsupported, decide
+from sa.sym import UnknownAtom
+from sa.tables import Outcome, Unsupported, decide
 
 _L = "esrally/track/loader.py"
 _T = "esrally/track/track.py"
@@ -38,9 +39,54 @@ def r_key(e, defs=None):
     """key string of a `self._r(spec, "key", ...)` expression (through one local)."""
     if isinstance(e, ast.Name) and defs and e.id in defs:
         e = defs[e.id]
-    if isinstance(e, ast.Call) and u(e.func) == "self._r" and len(e.args) >= 2 and isinstance(e.args[1], ast.Constant):
-        return e.args[1].value, e
+    if isinstance(e, ast.Call) and u(e.func) == "self._r" and isinstance(arg_of(e, 1, "path"), ast.Constant):
+        return arg_of(e, 1, "path").value, e
     return None, e
+
+
+def r_root(call):
+    """text of the spec a `self._r(spec, "key", ...)` call reads from."""
+    return u(arg_of(call, 0, "root")) if isinstance(call, ast.Call) and arg_of(call, 0, "root") is not None else None
+
+
+def method(mod, cls, name):
+    """method `name` of class `cls` (AnchorMissing, not KeyError, if it is gone)."""
+    m = mod.methods(cls).get(name)
+    if m is None:
+        raise AnchorMissing(f"{cls.name}.{name}")
+    return m
+
+
+def stmts_of(body):
+    """statements of a body that matter: docstrings and logging statements dropped."""
+    return [s for s in body if not is_logging_stmt(s) and not (isinstance(s, ast.Expr) and isinstance(s.value, ast.Constant) and isinstance(s.value.value, str))]
+
+
+def exact_facts(node, patterns, binds=None, stop=None):
+    """the atomic guard facts of node are exactly the patterns: each pattern holds (any orientation / polarity / arm order) and no further condition narrows the site."""
+    fs = pat.fact_nodes(node, stop)
+    return bool(fs) and all(any(pat.match(f, p, binds) is not None for f in fs) for p in patterns) and all(any(pat.match(f, p, binds) is not None for p in patterns) for f in fs)
+
+
+def rejecting_condition(g, ifnode):
+    """the condition (AST) under which this if statement never reaches the normal exit of its function, whichever arm holds the raise; None if neither / both arms do."""
+    n = g.node_of(ifnode)
+    t_dead = g.exit.id not in g.reachable(g.edge_targets(n, "true"))
+    f_dead = g.exit.id not in g.reachable(g.edge_targets(n, "false"))
+    if t_dead and not f_dead:
+        return ifnode.test
+    if f_dead and not t_dead:
+        return negate(ifnode.test)
+    return None
+
+
+def name_of(e):
+    return e.id if isinstance(e, ast.Name) else None
+
+
+def assigned_from(func, pred):
+    """names of the locals assigned (simple `x = <call>`) from a call satisfying pred."""
+    return [n.targets[0].id for n in walk_body(func) if isinstance(n, ast.Assign) and len(n.targets) == 1 and isinstance(n.targets[0], ast.Name) and isinstance(n.value, ast.Call) and pred(n.value)]
 
 
 def run(chk):
@@ -57,9 +103,7 @@ def run(chk):
     )
     chk.not_decided = "Jinja rendering semantics (incl. the text of the built-in macros), JSON-schema semantics, free-form operation parameters."
     SR = ldr.cls("TrackSpecificationReader")
-    sm = ldr.methods(SR)
     FR = ldr.cls("TrackFileReader")
-    fm = ldr.methods(FR)
 
     # ---- O10.1 operation-type registry --------------------------------------------------------------------------------------------------------------
     chk.rule("O10.1", "operation-type registry: the string->member chain is a bijection (every member once, literals distinct); each literal equals the hyphenation of the member name "
@@ -70,25 +114,36 @@ def run(chk):
     fh = trk.methods(OT).get("from_hyphenated_string")
     if fh is None or len(members) < 40:
         raise AnchorMissing("OperationType members / from_hyphenated_string")
+    if len(params_of(fh)) < 2:
+        raise AnchorMissing("from_hyphenated_string(cls, <literal>)")
     vpar = params_of(fh)[1]
+    # registry keys: every string literal the parameter is compared with (any orientation, `in` tuples included); one entry per occurrence
+    lits = [c.value for n in walk_body(fh) if isinstance(n, ast.Compare) and any(name_of(x) == vpar for x in ast.walk(n)) for c in ast.walk(n) if isinstance(c, ast.Constant) and isinstance(c.value, str)]
+
+    def resolve(lit):
+        """outcome of the function for this literal, by evaluating its tests (independent of chain shape, arm order and comparison orientation)."""
+        def atom(n, e_):
+            if isinstance(n, ast.BoolOp) or (isinstance(n, ast.UnaryOp) and isinstance(n.op, ast.Not)):
+                return None
+            try:
+                return bool(ev(n, {vpar: lit}))
+            except CannotEval:
+                return None
+
+        return decide(stmts_of(fh.body), atom, {})
+
     pairs = []
-    node = fh.body[0]
-    while isinstance(node, ast.If):
-        t = node.test
-        ok = isinstance(t, ast.Compare) and len(t.ops) == 1 and isinstance(t.ops[0], ast.Eq) and u(t.left) == vpar and isinstance(t.comparators[0], ast.Constant) \
-            and len(node.body) == 1 and isinstance(node.body[0], ast.Return) and dotted(node.body[0].value) and dotted(node.body[0].value).startswith("OperationType.")
-        if not ok:
-            chk.unknown("O10.1", f"registry arm is not `if v == '<literal>': return OperationType.<Member>`: {short(node.test, 60)}", node)
-            break
-        pairs.append((t.comparators[0].value, node.body[0].value.attr, node))
-        if len(node.orelse) == 1 and isinstance(node.orelse[0], ast.If):
-            node = node.orelse[0]
-        else:
-            tail = node.orelse
-            ok = bool(tail) and isinstance(tail[-1], ast.Raise) and "KeyError" in u(tail[-1].exc)
-            chk.ob("O10.1", "unknown literal raises KeyError", ok, node, "")
-            break
-    lits = [p[0] for p in pairs]
+    try:
+        for lit in dict.fromkeys(lits):
+            out = resolve(lit)
+            if out.kind == "return" and out.value is not None and (dotted(out.value) or "").startswith("OperationType."):
+                pairs.append((lit, out.value.attr, out.node))
+            elif out.kind != "raise":
+                chk.unknown("O10.1", f"registry outcome for '{lit}' is not `return OperationType.<Member>`: {out.text()[:60]}", out.node if out.node is not None else fh)
+        out = resolve("\x00no-such-operation-type")
+        chk.ob("O10.1", "unknown literal raises KeyError", out.kind == "raise" and "KeyError" in u(out.value), out.node if out.node is not None else fh, out.text()[:80])
+    except (Unsupported, UnknownAtom) as e:
+        chk.unknown("O10.1", f"from_hyphenated_string is not a decision over comparisons of `{vpar}` with literals: {e}", fh)
     mems = [p[1] for p in pairs]
     chk.ob("O10.1", "literals are distinct", len(lits) == len(set(lits)), fh, f"duplicates: {sorted({x for x in lits if lits.count(x) > 1})}")
     chk.ob("O10.1", "each member is returned by exactly one literal", len(mems) == len(set(mems)), fh, f"duplicates: {sorted({x for x in mems if mems.count(x) > 1})}")
@@ -99,11 +154,14 @@ def run(chk):
         if mem not in members:
             chk.ob("O10.1", f"literal '{lit}' returns a declared member", False, nd, f"OperationType.{mem} is not declared")
     th = trk.methods(OT).get("to_hyphenated_string")
-    ok = th is not None and u([n for n in walk_body(th) if isinstance(n, ast.Return)][0].value) == "''.join(['-' + c.lower() if c.isupper() else c for c in self.name]).lstrip('-')"
+    th_rets = [n for n in walk_body(th) if isinstance(n, ast.Return)] if th is not None else []
+    ok = len(th_rets) == 1 and pat.is_(th_rets[0].value, "''.join(['-' + V_c.lower() if V_c.isupper() else V_c for V_c in self.name]).lstrip('-')")
     chk.ob("O10.1", "to_hyphenated_string is the documented hyphenation", ok, th if th is not None else OT, "")
     reg = rn.func("register_default_runners")
     regd = set()
     for c in source.calls_in(reg, attr="register_runner"):
+        if not c.args:
+            continue
         a0 = c.args[0]
         if isinstance(a0, ast.Attribute) and dotted(a0) and dotted(a0).startswith("track.OperationType."):
             regd.add(a0.attr)
@@ -116,6 +174,8 @@ def run(chk):
     rf = rn.func("runner_for")
     chk.ob("O10.1", "runner lookup by the same (hyphenated string) key", any(isinstance(n, ast.Subscript) and "__RUNNERS" in u(n.value) for n in walk_body(rf)), rf, "")
     for c in source.calls_in(pr.tree, attr="register_param_source_for_operation", local=False):
+        if not c.args:
+            continue
         a0 = c.args[0]
         if isinstance(a0, ast.Attribute) and (dotted(a0) or "").startswith("track.OperationType."):
             chk.ob("O10.1", f"param source registered for declared member {a0.attr}", a0.attr in members, c, "", key=f"{_P}:param-source:{a0.attr}")
@@ -131,33 +191,41 @@ def run(chk):
              "SAME key of the parallel element (positional agreement); completed-by flags derive from comparing the task name with the parallel's completed-by / 'any'; schedule order is "
              "append order; document-set keys reach the Documents parameter of that meaning with corpus-level defaults", 40,
              "a track's warm-up iterations load as iterations (or similar): the race runs something else than the file says, silently")
-    pt = sm["parse_task"]
-    pp = sm["parse_parallel"]
+    pt = method(ldr, SR, "parse_task")
+    pp = method(ldr, SR, "parse_parallel")
+    if len(params_of(pt)) < 2 or len(params_of(pp)) < 2:
+        raise AnchorMissing("parse_task(self, <task spec>, ...) / parse_parallel(self, <parallel spec>, ...)")
     tctor = [c for c in source.calls_in(pt) if dotted(c.func) == "track.Task"]
     if not tctor:
         raise AnchorMissing("track.Task(...) in parse_task")
     tdefs = local_defs(pt)
     TK = trk.cls("Task")
-    tinit = trk.methods(TK)["__init__"]
+    tinit = method(trk, TK, "__init__")
     tb = bind_args(tctor[0], tinit)
     stored = {n.value.id: n.targets[0].attr for n in walk_body(tinit) if isinstance(n, ast.Assign) and is_self_attr(n.targets[0]) and isinstance(n.value, ast.Name)}
     for key, param in TASK_KEYS.items():
         e = tb.get(param)
         k, call = r_key(e, tdefs)
-        ok = k == key and u(call.args[0]) == params_of(pt)[1]
+        ok = k == key and r_root(call) == params_of(pt)[1]
         chk.ob("O10.2", f"task key '{key}' -> Task({param}=...)", ok, e if e is not None else tctor[0], f"read from key {k!r}", key=f"{_L}:parse_task:key:{key}")
         if param not in ("tags", "meta_data"):
             chk.ob("O10.2", f"Task.{param} stores its parameter", stored.get(param) == param, tinit, f"stored in self.{stored.get(param)}", key=f"{_T}:Task.__init__:{param}")
         if key in INHERITED and call is not None and isinstance(call, ast.Call):
             dv = arg_of(call, None, "default_value")
             chk.ob("O10.2", f"task key '{key}' defaults to the parallel element's value", dv is not None and u(dv) == INHERITED[key], call, f"default_value={u(dv) if dv is not None else None}", key=f"{_L}:parse_task:default:{key}")
-    ok = u(tb.get("completes_parent")) in ("task_name == completed_by_name", "completed_by_name == task_name") and u(tb.get("any_completes_parent")) in ("completed_by_name == 'any'", "'any' == completed_by_name")
+    # roles: the task's name is whatever expression is handed to Task(name=...); the operation is the local assigned from self.parse_operation(...)
+    name_e = tb.get("name")
+    ok = name_e is not None and pat.is_(tb.get("completes_parent"), "E_n == completed_by_name", binds={"n": u(name_e)}) and pat.is_(tb.get("any_completes_parent"), "completed_by_name == 'any'")
     chk.ob("O10.2", "completed-by flags: name == completed-by / completed-by == 'any'", ok, tctor[0], "")
-    ok = u(tb.get("operation")) == "op" and u(tb.get("params")) == params_of(pt)[1]
+    op_locals = set(assigned_from(pt, lambda c: u(c.func) == "self.parse_operation"))
+    if len(op_locals) != 1:
+        raise AnchorMissing(f"one local assigned from self.parse_operation(...) in parse_task (found {sorted(op_locals)})")
+    op_local = op_locals.pop()
+    ok = name_of(tb.get("operation")) == op_local and u(tb.get("params")) == params_of(pt)[1]
     chk.ob("O10.2", "operation and raw task spec handed to the task", ok, tctor[0], "")
-    nm = tdefs.get("task_name")
+    _, nm = r_key(name_e, tdefs)
     dvn = arg_of(nm, None, "default_value") if isinstance(nm, ast.Call) else None
-    chk.ob("O10.2", "task name defaults to the operation name", dvn is not None and u(dvn) == "op.name", nm if nm is not None else pt, "")
+    chk.ob("O10.2", "task name defaults to the operation name", dvn is not None and pat.is_(dvn, "V_op.name", binds={"op": op_local}), nm if nm is not None else pt, "")
     # parse_parallel: defaults read from the same keys and passed to the matching parameters
     pdefs = local_defs(pp)
     ptc = [c for c in source.calls_in(pp) if u(c.func) == "self.parse_task"]
@@ -167,31 +235,43 @@ def run(chk):
     for key, param in INHERITED.items():
         e = pb.get(param)
         k, call = r_key(e, pdefs)
-        ok = k == key and isinstance(call, ast.Call) and u(call.args[0]) == params_of(pp)[1]
+        ok = k == key and isinstance(call, ast.Call) and r_root(call) == params_of(pp)[1]
         chk.ob("O10.2", f"parallel key '{key}' -> parse_task({param}=...)", ok, e if e is not None else ptc[0], f"read from key {k!r}", key=f"{_L}:parse_parallel:default:{key}")
     k, _ = r_key(pb.get("completed_by_name"), pdefs)
     chk.ob("O10.2", "parallel key 'completed-by' -> parse_task(completed_by_name=...)", k == "completed-by", ptc[0], f"read from key {k!r}")
     pr_ = [c for c in source.calls_in(pp) if dotted(c.func) == "track.Parallel"]
-    k, _ = r_key(pr_[0].args[1], pdefs) if pr_ and len(pr_[0].args) > 1 else (None, None)
-    chk.ob("O10.2", "parallel key 'clients' -> Parallel(clients)", k == "clients" and u(pr_[0].args[0]) == "tasks", pr_[0] if pr_ else pp, "")
+    prb = bind_args(pr_[0], method(trk, trk.cls("Parallel"), "__init__")) if pr_ else {}
+    k, _ = r_key(prb.get("clients"), pdefs) if prb.get("clients") is not None else (None, None)
+    # role: the sub-task list is the local handed to Parallel(tasks=...); it must be the list the loop over the 'tasks' key appends each parsed task to
+    tasks_local = name_of(prb.get("tasks"))
     tl = [n for n in walk_body(pp) if isinstance(n, ast.For) and isinstance(n.iter, ast.Call) and r_key(n.iter)[0] == "tasks"]
-    ok = bool(tl) and any(isinstance(c, ast.Call) and u(c.func) == "tasks.append" for c in ast.walk(tl[0])) and not any(isinstance(c, ast.Call) and (dotted(c.func) in ("sorted", "reversed") or last_attr(c.func) in ("sort", "reverse", "insert")) for c in walk_body(pp))
+    appended = [c for c in ast.walk(tl[0]) if isinstance(c, ast.Call) and pat.is_(c.func, "V_l.append", binds={"l": tasks_local}) and len(c.args) == 1 and any(x is ptc[0] for x in ast.walk(c.args[0]))] if tl and tasks_local else []
+    chk.ob("O10.2", "parallel key 'clients' -> Parallel(clients)", k == "clients" and bool(appended), pr_[0] if pr_ else pp, "")
+    ok = bool(appended) and not any(isinstance(c, ast.Call) and (dotted(c.func) in ("sorted", "reversed") or last_attr(c.func) in ("sort", "reverse", "insert")) for c in walk_body(pp))
     chk.ob("O10.2", "sub-tasks kept in file order", ok, tl[0] if tl else pp, "")
-    cc = sm["_create_challenges"]
+    cc = method(ldr, SR, "_create_challenges")
+    # role: the schedule is the local handed to track.Challenge(schedule=...); the loop over the 'schedule' key appends each parsed element to it
+    chctor = [c for c in source.calls_in(cc) if dotted(c.func) == "track.Challenge"]
+    if not chctor:
+        raise AnchorMissing("track.Challenge(...) in _create_challenges")
+    chb = bind_args(chctor[0], method(trk, trk.cls("Challenge"), "__init__"))
+    sched_local = name_of(chb.get("schedule"))
     sl = [n for n in walk_body(cc) if isinstance(n, ast.For) and isinstance(n.iter, ast.Call) and r_key(n.iter)[0] == "schedule"]
-    ok = bool(sl) and any(isinstance(c, ast.Call) and u(c.func) == "schedule.append" for c in ast.walk(sl[0])) and not any(isinstance(c, ast.Call) and (dotted(c.func) in ("sorted", "reversed") and "schedule" in u(c)) for c in walk_body(cc))
+    ok = bool(sl) and sched_local is not None and any(isinstance(c, ast.Call) and pat.is_(c.func, "V_l.append", binds={"l": sched_local}) for c in ast.walk(sl[0])) \
+        and not any(isinstance(c, ast.Call) and dotted(c.func) in ("sorted", "reversed") and any(name_of(x) == sched_local or (isinstance(x, ast.Constant) and x.value == "schedule") for x in ast.walk(c)) for c in walk_body(cc))
     chk.ob("O10.2", "schedule kept in file order", ok, sl[0] if sl else cc, "")
     if sl:
-        br = [n for n in sl[0].body if isinstance(n, ast.If)]
-        ok = bool(br) and u(br[0].test) == f"'parallel' in {sl[0].target.id}" and any(u(c.func) == "self.parse_parallel" and u(c.args[0]) == f"{sl[0].target.id}['parallel']" for c in ast.walk(br[0]) if isinstance(c, ast.Call)) \
-            and any(u(c.func) == "self.parse_task" and u(c.args[0]) == sl[0].target.id for s_ in br[0].orelse for c in ast.walk(s_) if isinstance(c, ast.Call))
-        chk.ob("O10.2", "parallel elements and plain tasks dispatched on the 'parallel' key", ok, br[0] if br else sl[0], "")
+        ev_ = name_of(sl[0].target)
+        ppc = [c for c in ast.walk(sl[0]) if isinstance(c, ast.Call) and u(c.func) == "self.parse_parallel" and c.args and pat.is_(c.args[0], "V_e['parallel']", binds={"e": ev_})]
+        ptk = [c for c in ast.walk(sl[0]) if isinstance(c, ast.Call) and u(c.func) == "self.parse_task" and c.args and name_of(c.args[0]) == ev_]
+        ok = ev_ is not None and bool(ppc) and bool(ptk) and all(exact_facts(c, ["'parallel' in V_e"], binds={"e": ev_}, stop=sl[0]) for c in ppc) and all(exact_facts(c, ["'parallel' not in V_e"], binds={"e": ev_}, stop=sl[0]) for c in ptk)
+        chk.ob("O10.2", "parallel elements and plain tasks dispatched on the 'parallel' key", ok, ppc[0] if ppc else sl[0], "")
     # documents
-    cr = sm["_create_corpora"]
+    cr = method(ldr, SR, "_create_corpora")
     dctor = [c for c in source.calls_in(cr) if dotted(c.func) == "track.Documents"]
     if not dctor:
         raise AnchorMissing("track.Documents(...) in _create_corpora")
-    DI = trk.methods(trk.cls("Documents"))["__init__"]
+    DI = method(trk, trk.cls("Documents"), "__init__")
     db = bind_args(dctor[0], DI)
     cdefs = {}
     for n in walk_body(cr):
@@ -206,8 +286,8 @@ def run(chk):
             x = todo.pop()
             if x is None:
                 continue
-            if isinstance(x, ast.Call) and u(x.func) == "self._r" and len(x.args) >= 2 and isinstance(x.args[1], ast.Constant):
-                out.add(x.args[1].value)
+            if isinstance(x, ast.Call) and r_key(x)[0] is not None:
+                out.add(r_key(x)[0])
                 todo.append(arg_of(x, None, "default_value"))
                 continue
             if isinstance(x, ast.Call) and dotted(x.func) == "track.Documents":
@@ -234,7 +314,6 @@ def run(chk):
         chk.ob("O10.2", f"Documents.{param} stores its parameter", dstored.get(param) in (param, "_" + param), DI, f"stored in self.{dstored.get(param)}", key=f"{_T}:Documents.__init__:{param}")
 
     # a default invented from the FIRST element of a collection is only sound when the collection has exactly one element; otherwise the key stays mandatory downstream
-    from sa import pat
     n_first = 0
     for c in source.calls_in(cr):
         if u(c.func) != "self._r":
@@ -247,14 +326,14 @@ def run(chk):
             n_first += 1
             coll = u(x.value)
             ok = pat.guarded(c, f"len({coll}) == 1") is not None
-            chk.ob("O10.2", f"default `{short(dv, 40)}` for '{source.const(c.args[1]) if len(c.args) > 1 and isinstance(c.args[1], ast.Constant) else '?'}' only when `{coll}` has exactly one element", ok, c,
+            chk.ob("O10.2", f"default `{short(dv, 40)}` for '{r_key(c)[0] or '?'}' only when `{coll}` has exactly one element", ok, c,
                    "" if ok else f"guards: {[u(f_) for f_ in pat.fact_nodes(c)]} — with several elements a missing mandatory target is silently replaced by the first one",
                    key=f"{_L}:_create_corpora:first-element-default:{u(x)}")
     chk.ob("O10.2", "first-element defaults located in _create_corpora", n_first >= 3, cr, f"{n_first} site(s)")
 
     # ---- O10.3 error helper -----------------------------------------------------------------------------------------------------------------------------------
     chk.rule("O10.3", "the error helper raises a track syntax error on every path", 1, "a detected rule violation is only logged and the invalid track is loaded")
-    ef = sm["_error"]
+    ef = method(ldr, SR, "_error")
     ge = cfg_of(ef)
     ok = ge.exit.id not in ge.reachable([ge.entry]) and any(isinstance(n, ast.Raise) and "TrackSyntaxError" in u(n.exc) for n in walk_body(ef))
     chk.ob("O10.3", "_error has no normal exit", ok, ef, "")
@@ -262,24 +341,40 @@ def run(chk):
     # ---- O10.4 validation dominates construction -----------------------------------------------------------------------------------------------------------------
     chk.rule("O10.4", "schema validation and the version window check dominate the call that builds the track; their failures are re-raised as errors", 4,
              "a track violating the schema (or of an unsupported version) is loaded")
-    rd = fm["read"]
+    rd = method(ldr, FR, "read")
     gr = cfg_of(rd)
     build = [c for c in source.calls_in(rd) if u(c.func) == "self.read_track"]
     val = [c for c in source.calls_in(rd) if dotted(c.func) == "jsonschema.validate"]
     if not build or not val:
         raise AnchorMissing("self.read_track(...) / jsonschema.validate(...) in TrackFileReader.read")
     bn = gr.node_of(build[0])
-    ok = gr.dominated_by_nodes(bn, [gr.node_of(val[0])]) and [u(a) for a in val[0].args] == ["track_spec", "self.track_schema"] and u(build[0].args[1]) == "track_spec"
+    # role: the specification is the local handed to self.read_track(<name>, SPEC, ...); the SAME local must be what jsonschema.validate(SPEC, self.track_schema) checked
+    spec_local = name_of(arg_of(build[0], 1, "track_specification"))
+    ok = gr.dominated_by_nodes(bn, [gr.node_of(val[0])]) and spec_local is not None and name_of(arg_of(val[0], 0, "instance")) == spec_local and u(arg_of(val[0], 1, "schema")) == "self.track_schema"
     chk.ob("O10.4", "jsonschema.validate(track_spec, schema) dominates construction of the same spec", ok, val[0], "")
     tv = source.enclosing(val[0], ast.Try)
     ok = tv is not None and all(gr.exit.id not in gr.reachable(gr.by_ast.get(id(h), [])) and any(isinstance(x, ast.Raise) and "TrackSyntaxError" in u(x.exc) for x in ast.walk(h)) for h in tv.handlers)
     chk.ob("O10.4", "validation errors re-raised as track syntax errors", ok, tv if tv is not None else rd, "")
+    # the window is evaluated, not read off the comparison text: with representative bounds 2..4 the rejecting conditions of the dominating checks must reject exactly 1 and 5
     vt = [n for n in rd.body if isinstance(n, ast.If) and "SUPPORTED_TRACK_VERSION" in u(n.test)]
-    ok = len(vt) == 2 and all(gr.dominated_by_nodes(bn, [gr.node_of(n)]) and gr.exit.id not in gr.reachable(gr.edge_targets(gr.node_of(n), "true")) for n in vt)
+    rej = [rejecting_condition(gr, n) for n in vt]
     tests = sorted(u(n.test) for n in vt)
-    ok = ok and any("MINIMUM" in t and (">" in t) for t in tests) and any("MAXIMUM" in t and ("<" in t) for t in tests)
-    chk.ob("O10.4", "version window check (below minimum / above maximum raise) dominates construction", ok, vt[0] if vt else rd, f"{tests}")
-    sch = fm["__init__"]
+    ok = bool(vt) and all(gr.dominated_by_nodes(bn, [gr.node_of(n)]) for n in vt) and all(r is not None for r in rej)
+    ver_locals = {x.id for n in vt for x in ast.walk(n.test) if isinstance(x, ast.Name) and x.id not in ("TrackFileReader", "self")}
+    detail = f"{tests}"
+    if ok and len(ver_locals) == 1:
+        bounds = Record(MINIMUM_SUPPORTED_TRACK_VERSION=2, MAXIMUM_SUPPORTED_TRACK_VERSION=4)
+        try:
+            rows = {v: any(bool(ev(r, {next(iter(ver_locals)): v, "TrackFileReader": bounds, "self": bounds})) for r in rej) for v in (1, 2, 3, 4, 5)}
+            ok = rows == {1: True, 2: False, 3: False, 4: False, 5: True}
+            detail = f"{tests}; with supported versions 2..4 rejected: {sorted(v for v, r in rows.items() if r)}"
+        except CannotEval as e:
+            ok = False
+            detail = f"{tests}; cannot evaluate: {e}"
+    else:
+        ok = False
+    chk.ob("O10.4", "version window check (below minimum / above maximum raise) dominates construction", ok, vt[0] if vt else rd, detail)
+    sch = method(ldr, FR, "__init__")
     ok = any(isinstance(n, ast.Assign) and is_self_attr(n.targets[0], "track_schema") and "json.loads" in u(n.value) for n in walk_body(sch)) and any("track-schema.json" in u(n) for n in walk_body(sch))
     chk.ob("O10.4", "the schema is Rally's track-schema.json", ok, sch, "")
     # sibling cross-check inside the schema: a task key is constrained identically wherever it may be written (plain task, parallel element, task inside a parallel element;
@@ -328,13 +423,13 @@ def run(chk):
         ok = False
         detail = "no rejecting site"
         for c in errs:
-            gs = guards(c)
-            for t, pol in gs:
-                if pol and isinstance(t, ast.Compare) and isinstance(t.ops[0], ast.In):
+            # membership fact under which the site rejects, whatever the polarity / arm order of the test that establishes it
+            for t in pat.fact_nodes(c):
+                if isinstance(t, ast.Compare) and len(t.ops) == 1 and isinstance(t.ops[0], ast.In):
                     cont = u(t.comparators[0])
                     elem = u(t.left)
                     loop = source.enclosing(c, ast.For)
-                    fills = [x for x in ast.walk(loop if loop is not None else func) if (isinstance(x, ast.Call) and u(x.func) == f"{cont}.add" and u(x.args[0]) == elem) or
+                    fills = [x for x in ast.walk(loop if loop is not None else func) if (isinstance(x, ast.Call) and u(x.func) == f"{cont}.add" and len(x.args) == 1 and u(x.args[0]) == elem) or
                              (isinstance(x, ast.Assign) and isinstance(x.targets[0], ast.Subscript) and u(x.targets[0].value) == cont and u(x.targets[0].slice) == elem)]
                     ok = bool(fills)
                     detail = f"`{u(t)}` rejects; filled by {short(fills[0], 50) if fills else 'NOTHING (the membership test can never be true)'}"
@@ -342,23 +437,34 @@ def run(chk):
 
     dedupe(cc, "multiple tasks with the name", "task")
     dedupe(cc, "duplicate challenge", "challenge")
-    dedupe(sm["parse_operations"], "duplicate operation", "operation")
+    dedupe(method(ldr, SR, "parse_operations"), "duplicate operation", "operation")
     dedupe(cr, "duplicate document corpus", "corpus")
     # default challenge rules
-    errs = {("both" in u(c.args[0]).lower() and "default" in u(c.args[0]).lower()): c for c in source.calls_in(cc) if u(c.func) == "self._error" and c.args}
+    # roles: the default flag is the local handed to Challenge(default=...); the challenge is the local assigned from track.Challenge(...); the remembered default challenge is the
+    # local that receives the challenge exactly when the flag holds; the result list is the local the function returns
     two = [c for c in source.calls_in(cc) if u(c.func) == "self._error" and c.args and "defined as default challenges" in u(c.args[0])]
-    ok = bool(two) and any(pol and {u(a) for a in atoms_of(t)} == {"default", "default_challenge is not None"} for t, pol in guards(two[0]))
-    sets = [n for n in walk_body(cc) if isinstance(n, ast.Assign) and u(n.targets[0]) == "default_challenge" and u(n.value) == "challenge"]
-    ok = ok and bool(sets) and any(pol and u(t) == "default" for t, pol in guards(sets[0]))
+    flag_local = name_of(chb.get("default"))
+    ch_local = name_of(source.enclosing_stmt(chctor[0]).targets[0]) if isinstance(source.enclosing_stmt(chctor[0]), ast.Assign) and len(source.enclosing_stmt(chctor[0]).targets) == 1 else None
+    sets = [n for n in walk_body(cc) if isinstance(n, ast.Assign) and len(n.targets) == 1 and isinstance(n.targets[0], ast.Name) and ch_local is not None and name_of(n.value) == ch_local
+            and flag_local is not None and exact_facts(n, ["V_f"], binds={"f": flag_local})]
+    dc_local = sets[0].targets[0].id if sets else None
+    ok = bool(two) and dc_local is not None and exact_facts(two[0], ["V_f", "V_d is not None"], binds={"f": flag_local, "d": dc_local})
     chk.ob("O10.5", "several default challenges rejected", ok, two[0] if two else cc, "")
     none = [c for c in source.calls_in(cc) if u(c.func) == "self._error" and c.args and "No default challenge" in u(c.args[0])]
-    ok = bool(none) and any(pol and {u(a) for a in atoms_of(t)} == {"challenges", "default_challenge is None"} for t, pol in guards(none[0])) and not isinstance(source.enclosing(none[0], ast.For), ast.For)
+    res_locals = {name_of(n.value) for n in walk_body(cc) if isinstance(n, ast.Return)}
+    res_local = next(iter(res_locals)) if len(res_locals) == 1 else None
+    ok = bool(none) and dc_local is not None and res_local is not None and exact_facts(none[0], ["V_r", "V_d is None"], binds={"r": res_local, "d": dc_local}) and source.enclosing(none[0], ast.For) is None
     chk.ob("O10.5", "no default challenge rejected (after all challenges were read)", ok, none[0] if none else cc, "")
     # mixing rules: decision table over abstract tasks
-    idx = pt.body.index(source.enclosing_stmt(tctor[0])) if source.enclosing_stmt(tctor[0]) in pt.body else None
+    tstmt = source.enclosing_stmt(tctor[0])
+    idx = pt.body.index(tstmt) if tstmt in pt.body else None
     if idx is None:
         raise AnchorMissing("task construction statement at top level of parse_task")
-    block = [s for s in pt.body[idx + 1:] if not isinstance(s, ast.Return)]
+    # role: the task under validation is the local assigned from track.Task(...)
+    task_local = name_of(tstmt.targets[0]) if isinstance(tstmt, ast.Assign) and len(tstmt.targets) == 1 else None
+    if task_local is None:
+        raise AnchorMissing("`<local> = track.Task(...)` in parse_task")
+    block = [s for s in stmts_of(pt.body[idx + 1:]) if not isinstance(s, ast.Return)]
     n_rows = 0
     for wi, it, wt, tp, ru in itertools.product([False, True], [False, True], [False, True], [False, True], ["none", "le", "gt"]):
         if ru != "none" and not wt and ru == "le":
@@ -374,7 +480,7 @@ def run(chk):
         def atom(n, e_):
             class Sub(ast.NodeTransformer):
                 def visit_Attribute(self, a):
-                    if isinstance(a.value, ast.Name) and a.value.id == "task" and hasattr(t_, a.attr):
+                    if isinstance(a.value, ast.Name) and a.value.id == task_local and hasattr(t_, a.attr):
                         return ast.Constant(value=getattr(t_, a.attr))
                     return a
 
@@ -385,8 +491,9 @@ def run(chk):
 
         def on_stmt(s, e_, b):
             if isinstance(s, ast.Expr) and isinstance(s.value, ast.Call) and u(s.value.func) == "self._error":
-                from sa.tables import Outcome
                 return Outcome("raise", s.value, [], s)
+            if is_logging_stmt(s):
+                return "skip"
             return None
 
         try:
@@ -403,22 +510,52 @@ def run(chk):
                key=f"{_L}:parse_task:mix:{wi}|{it}|{wt}|{tp}|{ru}")
     chk.ob("O10.5", "mixing-rule table evaluated", n_rows >= 40, pt, f"{n_rows} abstract tasks")
     # ramp-up only on the parallel element
+    # roles: the parallel's ramp-up is the local handed to parse_task(default_ramp_up_time_period=...); a sub-task is the loop variable of a loop over the sub-task list
+    def subtask_var(site):
+        """loop variable of the enclosing loop over the sub-task list (the list handed to Parallel), or None."""
+        for a in source.ancestors(site):
+            if isinstance(a, ast.For) and tasks_local is not None and name_of(a.iter) == tasks_local and name_of(a.target):
+                return a.target.id
+        return None
+
     ru_err = [c for c in source.calls_in(pp) if u(c.func) == "self._error" and c.args and "ramp-up-time-period" in u(c.args[0])]
-    ok = len(ru_err) == 2 and all(any(pol and u(t) == "task.ramp_up_time_period != default_ramp_up_time_period" for t, pol in guards(c)) for c in ru_err)
+    ru_local = name_of(pb.get("default_ramp_up_time_period"))
+    ok = len(ru_err) == 2 and ru_local is not None and all(subtask_var(c) is not None and pat.guarded(c, "V_t.ramp_up_time_period != V_d", binds={"t": subtask_var(c), "d": ru_local}) is not None for c in ru_err)
     chk.ob("O10.5", "a task inside a parallel element may not set its own ramp-up", ok, ru_err[0] if ru_err else pp, "")
-    # completed-by
+    # completed-by. roles: the completing task's name is the local handed to parse_task(completed_by_name=...); the found-flag is the local set to True for a sub-task that completes its parent
     cb_err = [c for c in source.calls_in(pp) if u(c.func) == "self._error" and c.args and "completed-by" in u(c.args[0])]
     no_task = [c for c in cb_err if "no task with this name" in u(c.args[0])]
     multi = [c for c in cb_err if "multiple tasks" in u(c.args[0])]
-    ok = bool(no_task) and any(pol and u(t) == "not has_completion_task" for t, pol in guards(no_task[0])) and any(pol and u(t) == "completed_by" for t, pol in guards(no_task[0]))
+    cb_local = name_of(pb.get("completed_by_name"))
+    found_flags = {n.targets[0].id for n in walk_body(pp) if isinstance(n, ast.Assign) and len(n.targets) == 1 and isinstance(n.targets[0], ast.Name) and source.is_const(n.value, True)
+                   and subtask_var(n) is not None and pat.guarded(n, "V_t.completes_parent", binds={"t": subtask_var(n)}) is not None}
+    found_local = next(iter(found_flags)) if len(found_flags) == 1 else None
+    ok = bool(no_task) and cb_local is not None and found_local is not None and exact_facts(no_task[0], ["V_c", "not V_f"], binds={"c": cb_local, "f": found_local}) and source.enclosing(no_task[0], ast.For) is None
     chk.ob("O10.5", "unknown completed-by task rejected", ok, no_task[0] if no_task else pp, "")
-    ok = bool(multi) and any(pol and u(t) == "task.completes_parent" for t, pol in guards(multi[0]))
+    ok = bool(multi) and subtask_var(multi[0]) is not None and pat.guarded(multi[0], "V_t.completes_parent", binds={"t": subtask_var(multi[0])}) is not None
     chk.ob("O10.5", "ambiguous completed-by (several tasks with that name) rejected", ok, multi[0] if multi else pp, "")
     # indices + data streams
-    call = sm["__call__"]
+    call = method(ldr, SR, "__call__")
     both = [n for f in (call, cr) for n in walk_body(f) if isinstance(n, ast.Raise) and "cannot both be specified" in u(n.exc)]
-    ok = len(both) >= 1 and all(any(pol and {u(a) for a in atoms_of(t)} == {"len(indices) > 0", "len(data_streams) > 0"} for t, pol in guards(n)) for n in both)
+    # roles: in _create_corpora the two collections are its parameters; in __call__ they are the locals handed to self._create_corpora(..., indices, data_streams)
+    ccall = [c for c in source.calls_in(call) if u(c.func) == "self._create_corpora"]
+    cb_ = bind_args(ccall[0], cr) if ccall else {}
+    coll = {id(cr): ("indices", "data_streams"), id(call): (name_of(cb_.get("indices")), name_of(cb_.get("data_streams")))}
+    ok = len(both) >= 1 and all(all(coll[id(source.enclosing_func(n))]) and exact_facts(n, ["len(V_i) > 0", "len(V_d) > 0"], binds=dict(zip("id", coll[id(source.enclosing_func(n))]))) for n in both)
     chk.ob("O10.5", "indices together with data streams rejected", ok, both[0] if both else call, "")
+    # ... and rejected for EVERY track: one rejecting site must sit on every path of the reader to the Track construction (a copy inside a helper that can return early does not count)
+    gcall = cfg_of(call)
+    tctor = [c for c in source.calls_in(call) if dotted(c.func) == "track.Track"]
+    own = [n for n in both if source.enclosing_func(n) is call]
+    own_ifs = [source.enclosing(n, ast.If) for n in own]
+    ok = bool(tctor) and any(i is not None and gcall.dominated_by_nodes(gcall.node_of(tctor[0]), [gcall.node_of(i)]) for i in own_ifs)
+    if not ok and tctor:
+        # alternatively the helper's check is its first statement and the helper is called unconditionally before the construction
+        first = [s_ for s_ in cr.body if not (isinstance(s_, ast.Expr) and isinstance(s_.value, ast.Constant))]
+        in_helper = [n for n in both if source.enclosing_func(n) is cr]
+        ok = bool(first) and bool(in_helper) and source.enclosing(in_helper[0], ast.If) is first[0] and bool(ccall) and gcall.dominated_by_nodes(gcall.node_of(tctor[0]), [gcall.node_of(ccall[0])])
+    chk.ob("O10.5", "the indices / data-streams exclusion is tested on every path to the Track construction", ok, own[0] if own else call,
+           "" if ok else "the only remaining test sits in a helper behind an early return: a track with both lists and no corpora is loaded", key=f"{_L}:TrackSpecificationReader.__call__:both-rejected-on-every-path")
     # reserved / unused track params between building and returning
     rets = [n for n in rd.body if isinstance(n, ast.Return)]
     for what, meth in (("reserved", "internal_user_defined_track_params"), ("unused", "unused_user_defined_track_params")):
@@ -426,19 +563,20 @@ def run(chk):
         ok = False
         if cs and rets:
             v = source.enclosing_stmt(cs[0]).targets[0].id if isinstance(source.enclosing_stmt(cs[0]), ast.Assign) else None
-            tests = [n for n in rd.body if isinstance(n, ast.If) and u(n.test) in (f"len({v}) > 0", v)]
-            ok = bool(tests) and gr.dominated_by_nodes(gr.node_of(cs[0]), [bn]) and gr.dominated_by_nodes(gr.node_of(rets[-1]), [gr.node_of(tests[0])]) and gr.exit.id not in gr.reachable(gr.edge_targets(gr.node_of(tests[0]), "true")) \
+            # the test that rejects when the list is non-empty, whichever arm holds the raise
+            tests = [n for n in rd.body if isinstance(n, ast.If) and v is not None and pat.is_(rejecting_condition(gr, n), "len(V_v) > 0", "len(V_v) != 0", "len(V_v) >= 1", "V_v", binds={"v": v})]
+            ok = bool(tests) and gr.dominated_by_nodes(gr.node_of(cs[0]), [bn]) and gr.dominated_by_nodes(gr.node_of(rets[-1]), [gr.node_of(tests[0])]) \
                 and any(isinstance(x, ast.Raise) and "TrackConfigError" in u(x.exc) for x in ast.walk(tests[0]))
         chk.ob("O10.5", f"{what} track parameters rejected between building and returning the track", ok, cs[0] if cs else rd, "")
     CT = ldr.cls("CompleteTrackParams")
-    un = ldr.methods(CT)["unused_user_defined_track_params"]
-    ok = any(isinstance(c, ast.Call) and last_attr(c.func) == "difference_update" and u(c.args[0]) == "self.track_defined_params" for c in walk_body(un))
+    un = method(ldr, CT, "unused_user_defined_track_params")
+    ok = any(isinstance(c, ast.Call) and last_attr(c.func) == "difference_update" and len(c.args) == 1 and u(c.args[0]) == "self.track_defined_params" for c in walk_body(un))
     chk.ob("O10.5", "unused == user-specified minus track-defined parameters", ok, un, "")
-    iu = ldr.methods(CT)["internal_user_defined_track_params"]
+    iu = method(ldr, CT, "internal_user_defined_track_params")
     ok = any(isinstance(n, ast.BinOp) and isinstance(n.op, ast.BitAnd) for n in walk_body(iu)) and any("default_internal_template_vars()['globals']" in u(n) for n in walk_body(iu))
     chk.ob("O10.5", "reserved == user-specified intersected with Rally's internal globals", ok, iu, "")
     # operation missing / unknown source format
-    chk.ob("O10.5", "task without operation rejected", any(isinstance(n, ast.Raise) and any(pol and u(t) == f"'operation' not in {params_of(pt)[1]}" for t, pol in guards(n)) for n in walk_body(pt)), pt, "")
+    chk.ob("O10.5", "task without operation rejected", any(isinstance(n, ast.Raise) and exact_facts(n, [f"'operation' not in {params_of(pt)[1]}"]) for n in walk_body(pt)), pt, "")
 
     # ---- O10.6 parameter accounting ----------------------------------------------------------------------------------------------------------------------------------
     chk.rule("O10.6", "every template that is rendered has its undeclared variables registered with the accounting object before rendering (track file and every included index / template body); "
@@ -450,32 +588,58 @@ def run(chk):
             g = cfg_of(f)
             regs = [c for c in source.calls_in(f) if last_attr(c.func) == "register_all_params_in_track"]
             src = arg_of(rc, 0, "template_source")
-            ok = bool(regs) and g.dominated_by_nodes(g.node_of(rc), [g.node_of(x) for x in regs]) and src is not None and any(u(x.args[0]) == u(src) for x in regs) \
-                and all(len(x.args) >= 2 and "complete_track_params" in u(x.args[1]) for x in regs)
+            ok = bool(regs) and g.dominated_by_nodes(g.node_of(rc), [g.node_of(x) for x in regs]) and src is not None and any(u(arg_of(x, 0, "assembled_source")) == u(src) for x in regs) \
+                and all(arg_of(x, 1, "complete_track_params") is not None and "complete_track_params" in u(arg_of(x, 1, "complete_track_params")) for x in regs)
             chk.ob("O10.6", f"{source.qualname(f)}: variables registered before rendering the same source", ok, rc, "")
     ra = ldr.func("register_all_params_in_track")
     ok = any(isinstance(c, ast.Call) and last_attr(c.func) == "find_undeclared_variables" for c in walk_body(ra)) and any(isinstance(c, ast.Call) and last_attr(c.func) == "populate_track_defined_params" for c in walk_body(ra))
     chk.ob("O10.6", "registration collects the undeclared variables of the assembled source", ok, ra, "")
-    pop = ldr.methods(CT)["populate_track_defined_params"]
+    pop = method(ldr, CT, "populate_track_defined_params")
     ok = any(isinstance(c, ast.Call) and u(c.func) == "self.track_defined_params.update" for c in walk_body(pop))
     chk.ob("O10.6", "registrations accumulate (update, not replace)", ok, pop, "")
     TS = ldr.cls("TemplateSource")
-    ri = ldr.methods(TS)["replace_includes"]
+    ri = method(ldr, TS, "replace_includes")
     rec = [c for c in source.calls_in(ri) if u(c.func) == "self.replace_includes"]
     ok = False
     detail = "no recursive call"
     if rec:
         b = bind_args(rec[0], ri)
         bp = b.get("base_path")
-        ok = bp is not None and isinstance(bp, ast.Call) and last_attr(bp.func) == "dirname" and u(bp.args[0]) == "full_glob_path" and u(local_defs(ri).get("full_glob_path") or ast.Constant(value=None)).startswith("os.path.join(base_path, ")
+        # role: the included file's path is the single-assignment local handed to dirname(...); it must be the including base path joined with the matched pattern
+        inc_local = name_of(bp.args[0]) if isinstance(bp, ast.Call) and len(bp.args) == 1 else None
+        ok = bp is not None and isinstance(bp, ast.Call) and last_attr(bp.func) == "dirname" and inc_local is not None and pat.is_(local_defs(ri).get(inc_local), "os.path.join(base_path, E_pattern)")
         detail = f"base_path={u(bp) if bp is not None else None}"
     chk.ob("O10.6", "nested includes resolve relative to the included file's directory", ok, rec[0] if rec else ri, detail)
-    lf = ldr.methods(TS)["load_template_from_file"]
-    ok = any(isinstance(c, ast.Call) and u(c.func) == "self.replace_includes" and u(c.args[0]) == "self.base_path" for c in walk_body(lf))
+    # included text is inserted verbatim: a non-constant replacement handed to re.sub must be a function (a string is a TEMPLATE: backslashes and group references in the
+    # included JSON would be re-interpreted)
+    n_sub = 0
+    for f_ in ldr.methods(TS).values():
+        fdefs_ = {x.name for x in ast.walk(f_) if isinstance(x, (ast.FunctionDef, ast.Lambda)) and hasattr(x, "name")}
+        for c in source.calls_in(f_):
+            if last_attr(c.func) not in ("sub", "subn") or not isinstance(c.func, ast.Attribute):
+                continue
+            is_mod = dotted(c.func) in ("re.sub", "re.subn")
+            repl = source.arg_of(c, 1 if is_mod else 0, "repl")
+            if repl is None:
+                continue
+            n_sub += 1
+            fn_ok = isinstance(repl, ast.Lambda) or (isinstance(repl, ast.Name) and repl.id in fdefs_) or (isinstance(repl, ast.Attribute) and isinstance(repl.value, ast.Name) and repl.value.id == "self")
+            const_ok = isinstance(repl, ast.Constant) and isinstance(repl.value, str) and "\\" not in repl.value
+            esc_ok = isinstance(repl, ast.Call) and last_attr(repl.func) == "replace" and "\\" in u(repl)
+            chk.ob("O10.6", f"TemplateSource.{f_.name}: substituted text is inserted verbatim (function replacement)", fn_ok or const_ok or esc_ok, c,
+                   short(c, 80) + ("" if (fn_ok or const_ok or esc_ok) else " — the replacement is a string built from file contents: re.sub treats it as a template, so `\\t`, `\\n`, `\\\\` and `\\1` in the included part change"),
+                   key=f"{_L}:TemplateSource.{f_.name}:sub-verbatim")
+    chk.ob("O10.6", "include substitution located", n_sub >= 1, ri, f"{n_sub} re.sub site(s) in TemplateSource")
+    lf = method(ldr, TS, "load_template_from_file")
+    ok = any(isinstance(c, ast.Call) and u(c.func) == "self.replace_includes" and u(bind_args(c, ri).get("base_path")) == "self.base_path" for c in walk_body(lf))
     chk.ob("O10.6", "top-level includes resolve relative to the track's directory", ok, lf, "")
     # built-in macros (embedded Jinja source): parsed with jinja2's own parser, never rendered
     rt0 = ldr.func("render_template")
-    macro_texts = [e.value for n in walk_body(rt0) if isinstance(n, ast.Assign) and u(n.targets[0]) == "macros" and isinstance(n.value, ast.List) for e in n.value.elts if isinstance(e, ast.Constant) and isinstance(e.value, str)]
+    # role: the macro sources are the list joined into the 'rally.helpers' entry of the DictLoader (through one local)
+    helper_srcs = [b_.get("m") for _, b_ in pat.find(rt0, "{'rally.helpers': ''.join(V_m)}")]
+    macro_lists = [n.value for n in walk_body(rt0) if isinstance(n, ast.Assign) and len(n.targets) == 1 and name_of(n.targets[0]) in helper_srcs and isinstance(n.value, ast.List)]
+    macro_lists += [d_.values[0].args[0] for d_ in walk_body(rt0) if isinstance(d_, ast.Dict) and len(d_.keys) == 1 and source.is_const(d_.keys[0], "rally.helpers") and pat.is_(d_.values[0], "''.join(E_l)") and isinstance(d_.values[0].args[0], ast.List)]
+    macro_texts = [e.value for l_ in macro_lists for e in l_.elts if isinstance(e, ast.Constant) and isinstance(e.value, str)]
     try:
         import jinja2
         import jinja2.nodes as jn
@@ -496,8 +660,13 @@ def run(chk):
     # user variables never override internal ones: internal applied after user vars
     rt = ldr.func("render_template")
     g = cfg_of(rt)
-    uv = [n for n in walk_body(rt) if isinstance(n, ast.Assign) and u(n.targets[0]).startswith("env.globals[")]
-    iv = [n for n in walk_body(rt) if isinstance(n, ast.Assign) and u(n.targets[0]).startswith("getattr(env, ")]
+    # role: the environment is the local assigned from jinja2.Environment(...) (the one the template is created from)
+    envs = set(assigned_from(rt, lambda c: dotted(c.func) == "jinja2.Environment"))
+    if len(envs) != 1:
+        raise AnchorMissing(f"one local assigned from jinja2.Environment(...) in render_template (found {sorted(envs)})")
+    env_local = envs.pop()
+    uv = [n for n in walk_body(rt) if isinstance(n, ast.Assign) and len(n.targets) == 1 and pat.is_(n.targets[0], "V_env.globals[E_k]", binds={"env": env_local})]
+    iv = [n for n in walk_body(rt) if isinstance(n, ast.Assign) and len(n.targets) == 1 and pat.is_(n.targets[0], "getattr(V_env, E_kind)[E_k]", binds={"env": env_local})]
     ok = bool(uv) and bool(iv) and not g.path_exists(g.node_of(iv[0]), g.node_of(uv[0]))
     chk.ob("O10.6", "internal template variables are applied after (and so win over) user variables", ok, iv[0] if iv else rt, "")
 
@@ -523,7 +692,23 @@ VARIANTS = [
     V("no registration for included templates", "break", _L, "        self.logger.info(\"Loading template [%s].\", description)\n        register_all_params_in_track(contents, self.complete_track_params)", "        self.logger.info(\"Loading template [%s].\", description)", "O10.6"),
     V("seed m2: nested includes relative to the outer base", "break", _L, "                repl[glob_pattern] = self.replace_includes(base_path=io.dirname(full_glob_path), track_fragment=sub_source)", "                repl[glob_pattern] = self.replace_includes(base_path=base_path, track_fragment=sub_source)", "O10.6"),
     V("seed m1: default filter in boolean mode", "break", _L, "{{ value | default(default_value) | tojson }}", "{{ value | default(default_value, true) | tojson }}", "O10.6"),
+    V("version window: maximum check compares the wrong way", "break", _L, "        if TrackFileReader.MAXIMUM_SUPPORTED_TRACK_VERSION < track_version:", "        if TrackFileReader.MAXIMUM_SUPPORTED_TRACK_VERSION > track_version:", "O10.4"),
+    V("version window: minimum itself rejected", "break", _L, "        if TrackFileReader.MINIMUM_SUPPORTED_TRACK_VERSION > track_version:", "        if TrackFileReader.MINIMUM_SUPPORTED_TRACK_VERSION >= track_version:", "O10.4"),
+    V("another spec validated than the one built", "break", _L, "            jsonschema.validate(track_spec, self.track_schema)", "            jsonschema.validate({}, self.track_schema)", "O10.4"),
+    V("second default challenge only rejected when selected", "break", _L, "            if default and default_challenge is not None:", "            if default and default_challenge is not None and selected:", "O10.5"),
+    V("indices OR data streams rejected", "break", _L, "        if len(indices) > 0 and len(data_streams) > 0:\n            # we guard", "        if len(indices) > 0 or len(data_streams) > 0:\n            # we guard", "O10.5"),
+    V("sub-task ramp-up compared with another default", "break", _L, "            if task.ramp_up_time_period != default_ramp_up_time_period:", "            if task.ramp_up_time_period != default_time_period:", "O10.5"),
+    V("missing completed-by task check inverted", "break", _L, "            if not has_completion_task:", "            if has_completion_task:", "O10.5"),
+    V("Parallel built from another list", "break", _L, "        return track.Parallel(tasks, clients)", "        return track.Parallel(ops, clients)", "O10.2"),
+    V("task gets the operation table instead of the operation", "break", _L, "            operation=op,\n", "            operation=ops,\n", "O10.2"),
     # preserving
+    V("registry literal on the left", "keep", _T, "        elif v == \"bulk\":", "        elif \"bulk\" == v:"),
+    V("registry chain split into separate ifs", "keep", _T, "        elif v == \"bulk\":", "        if v == \"bulk\":"),
+    V("version window via negated <=", "keep", _L, "        if TrackFileReader.MINIMUM_SUPPORTED_TRACK_VERSION > track_version:", "        if not (TrackFileReader.MINIMUM_SUPPORTED_TRACK_VERSION <= track_version):"),
+    V("reserved parameters tested by truthiness", "keep", _L, "        if len(internal_user_defined_track_params) > 0:", "        if internal_user_defined_track_params:"),
+    V("keyword arguments in Parallel(...) / validate(...)", "keep", _L, "        return track.Parallel(tasks, clients)", "        return track.Parallel(clients=clients, tasks=tasks)"),
+    V("second-default test operands swapped", "keep", _L, "            if default and default_challenge is not None:", "            if default_challenge is not None and default:"),
+    V("missing completed-by task check with inverted arms", "keep", _L, "            if not has_completion_task:\n                self._error(", "            if has_completion_task:\n                pass\n            else:\n                self._error("),
     V("keyword reorder in Task(...)", "keep", _L, "            name=task_name,\n            operation=op,", "            operation=op,\n            name=task_name,"),
     V("mixing rule operands swapped", "keep", _L, "        if task.warmup_iterations is not None and task.time_period is not None:", "        if task.time_period is not None and task.warmup_iterations is not None:"),
     V("De Morgan in the ramp-up rule", "keep", _L, "        if (task.warmup_iterations is not None or task.iterations is not None) and task.ramp_up_time_period is not None:", "        if not (task.warmup_iterations is None and task.iterations is None) and task.ramp_up_time_period is not None:"),
